@@ -184,3 +184,88 @@ def library_entry_resolves_to_its_nuclide(i: int, j: int, already: bool):
         assert refused and n._base is None, "unknown id and unknown label: refused"
     if not refused and not already:
         assert n._base.label == n.nucLabel and same(BasesMod.byLabel[n.nucLabel], n._base), "the label resolves to this nuclide"
+
+
+# ----------------------------------------------------------------------------- merging the files of a directory
+DummyNuclideBase = repo("armi.nucDirectory.nuclideBases:DummyNuclideBase")
+
+
+class FileNuc:
+    """nuclide of a library that was read: only `_base` is looked at (is there a dummy nuclide?)"""
+
+
+class FileLib:
+    """a library as returned by isotxs.readBinary (stand-in, see read_contract)"""
+
+
+class FileMeta:
+    pass
+
+
+class TargetLib:
+    """the library the files are merged into: merge(other) is recorded (its content: C10_libmerge.py)"""
+
+    def merge(self, other):
+        self.merged.append(other.path)
+
+
+class GlobStandIn:
+    """stand-in for the module glob: glob(pattern) = the directory listing given by the lemma, each name with the
+    directory in front (what glob.glob(os.path.join(baseDir, 'ISO*')) returns)"""
+
+    listing = []
+
+    @staticmethod
+    def glob(pattern):
+        assert pattern.endswith("/ISO*")
+        return [pattern[:-4] + name for name in GlobStandIn.listing if name.startswith("ISO")]
+
+
+def read_contract(path):
+    """contract assumed for isotxs.readBinary(path): a library read from that file; it remembers the path, carries a
+    neutron velocity that depends on the file only (uninterpreted function of the XS id in the file NAME), and
+    already holds a dummy nuclide (so that no dummy data have to be added and written)"""
+    name = path.split("/")[-1]
+    nuc = new(FileNuc, _base=new(DummyNuclideBase))
+    return new(FileLib, path=path, neutronVelocity=uf("velocity", POOL.index(name)) if not NATIVE else float(POOL.index(name)), nuclides=[nuc])
+
+
+def read_contract_cls(cls, path):
+    return read_contract(path)
+
+
+# isotxs.readBinary is the module-level alias `readBinary = IsotxsIO.readBinary` of the class method Stream.readBinary:
+# the engine replaces the function behind the alias (second entry), the native run the alias itself (first entry)
+READ_STUBS = {"armi.nuclearDataIO.cccc.isotxs:readBinary": "read_contract",
+              "armi.nuclearDataIO.cccc.cccc:Stream.readBinary": "read_contract_cls"}
+
+
+def merge_directory_case(directory, mask, w, have=0):
+    names = [POOL[i] for i in range(len(POOL)) if (mask // (2 ** i)) % 2 == 1]
+    GlobStandIn.listing = names
+    known = [directory + "/" + POOL[have - 1]] if have else []
+    lib = new(TargetLib, merged=[], isotxsMetadata=new(FileMeta, fileNames=known))
+    velocities = xsl.mergeXSLibrariesInWorkingDirectory(lib, xsLibrarySuffix=WANTED[w], alternateDirectory=directory)
+    want = [n for n in expected_files(WANTED[w], names) if directory + "/" + n not in known]
+    assert sorted(lib.merged) == sorted(directory + "/" + n for n in want), "exactly the chosen files are merged, each once"
+    assert sorted(velocities.keys()) == sorted(n[3:5] for n in want), "one neutron velocity per XS id, under that id"
+    for n in want:
+        v = uf("velocity", POOL.index(n)) if not NATIVE else float(POOL.index(n))
+        assert eq(velocities[n[3:5]], v), "the velocity of the file of that XS id"
+
+
+@lemma(gen={"mask": (0, 63), "w": (0, 2), "have": (0, 6)}, stubs=READ_STUBS, overrides={"armi.nuclearDataIO.xsLibraries:glob": "GlobStandIn"})
+def directory_merge_reads_one_file_per_xs_id(mask: int, w: int, have: int):
+    """mergeXSLibrariesInWorkingDirectory (neutron libraries only; stand-ins: glob, isotxs.readBinary, the target
+    library - see their contracts) for every subset of the six library names ISOAA, ISOAB, ISOBA, ISOAA-n2, ISOBA-n2,
+    ISOAB-n1 that does not hold a plain AND a suffixed file of the same XS id for the requested suffix (that case:
+    contracts/pending/C10_xs_finding.py), suffixes '', '-n2', '-n1'; the target library already holds the data of
+    none or one of the six files (`have`, enumerated): the files chosen per XS id and not yet in the library are merged
+    exactly once and the returned neutron velocities are keyed by the XS id of each file."""
+    mask = choose(mask, 0, 63)
+    w = choose(w, 0, 2)
+    have = choose(have, 0, 6)
+    names = [POOL[i] for i in range(6) if (mask // (2 ** i)) % 2 == 1]
+    clash = any(n + WANTED[w] in names for n in names if "-" not in n) and WANTED[w] != ""
+    assume(not clash)
+    merge_directory_case("/work/run1", mask, w, have)
